@@ -1,7 +1,30 @@
 import FormulaeModel.Driver.Base
+import FormulaeModel.Driver.C04
+import FormulaeModel.Spec.C08
 namespace FormulaeModel.Driver.C08
-open Lean FormulaeModel FormulaeModel.Driver
+open Lean FormulaeModel FormulaeModel.Driver FormulaeModel.Design FormulaeModel.Driver.C04
 
-def handle (_op : String) (_j : Json) : Option Json := none
+def natList (j : Json) (k : String) : List Nat := (getArr j k).filterMap (fun x => x.getNat?.toOption)
+
+/-- Spec.C08 on pairs (base run, transformed run) of the real implementation -/
+def handle (op : String) (j : Json) : Option Json :=
+  match op with
+  | "c08_spec" =>
+    let pairs := (getArr j "pairs").map (fun p =>
+      let base := matrixOfJson ((p.getObjVal? "base").toOption.getD Json.null)
+      let other := matrixOfJson ((p.getObjVal? "other").toOption.getD Json.null)
+      let metaOk := getStr p "meta_base" == getStr p "meta_other"
+      let paramsOk :=
+        let a := matrixOfJson ((p.getObjVal? "params_base").toOption.getD Json.null)
+        let b := matrixOfJson ((p.getObjVal? "params_other").toOption.getD Json.null)
+        Spec.C06.rowsEqual a b
+      let dataOk := match getStr p "rule" with
+        | "perm" =>
+          let sigma := natList p "sigma"
+          Spec.C08.isPermutation sigma base.length && Spec.C08.permutedOk base other sigma
+        | _ => Spec.C08.unchangedOk base other
+      Json.mkObj [("data_ok", dataOk), ("meta_ok", metaOk), ("params_ok", paramsOk)])
+    some (Json.mkObj [("pairs", Json.arr pairs.toArray)])
+  | _ => none
 
 end FormulaeModel.Driver.C08
